@@ -177,6 +177,27 @@ func init() {
 	})
 	register("tiles", func(n int) {
 		for i := 0; i < n; i++ {
+			if rng.Intn(10) == 0 {
+				// the plain altitude scale (base exponent 25, offset 0) with the tiles already at the output zoom: the conversion is
+				// the identity on VALID keys — and still an error, for the whole call, on a key outside 0 .. 2^zoom-1
+				zk := int64(rng.Intn(26))
+				h := randZoom()
+				name := "tile2ext"
+				if rng.Intn(3) == 0 {
+					name = "tile2sp"
+					h = zoomNear(zk, 3, 6)
+				}
+				var ts []string
+				for j := 1 + rng.Intn(3); j > 0; j-- {
+					z := randIdx(zk)
+					if rng.Intn(3) == 0 {
+						z = []int64{-1, pow2(zk), pow2(zk) + 5, -3, 5 * pow2(zk)}[rng.Intn(5)]
+					}
+					ts = append(ts, fmt.Sprintf("%d/%d/%d/%d/%d", h, randIdx(h), randIdx(h), zk, z))
+				}
+				do(name, join(ts), "25", "0", s(zk))
+				continue
+			}
 			E := int64(20 + rng.Intn(12))
 			off := pow2(E)/2 + int64(rng.Intn(9)-4)
 			if rng.Intn(4) == 0 {
